@@ -250,6 +250,8 @@ pub struct Cw1Scen {
     mode: u64,
     /// generator: the trace started from an `inst_legacy` state that was not migrated yet
     legacy: bool,
+    /// generator: trace-level story (0 = "one subkey gets a three-denomination allowance and uses it up in one send")
+    story: u64,
 }
 
 pub struct WlScen;
@@ -273,7 +275,7 @@ impl SkScen {
 
 impl Cw1Scen {
     fn make(sub: bool) -> Self {
-        Cw1Scen { sub, deps: new_deps(), env: mock_env(), pool: vec![], inited: false, seed: 0, wide: false, mode: 0, legacy: false }
+        Cw1Scen { sub, deps: new_deps(), env: mock_env(), pool: vec![], inited: false, seed: 0, wide: false, mode: 0, legacy: false, story: 99 }
     }
 
     fn name(&self) -> &'static str {
@@ -605,6 +607,21 @@ impl Cw1Scen {
         };
         let held: Vec<String> =
             self.raw_allowance(who).map(|a| a.balance.0.iter().map(|c| c.denom.clone()).collect()).unwrap_or_default();
+        // one send that uses an allowance up denom by denom: exactly the remainder of one denomination, then part of
+        // the denominations stored after it (an entry that reaches zero disappears from the stored balance while the
+        // later coins of the same message are still to be charged)
+        if held.len() >= 2 && rng.chance(1, 5) {
+            let i = rng.below(held.len() as u64 - 1) as usize;
+            let mut v = vec![format!("{}{}", self.held(who, &held[i]), held[i])];
+            for d in held.iter().skip(i + 1) {
+                if rng.chance(2, 3) {
+                    let h = self.held(who, d);
+                    let amt = match rng.below(3) { 0 => h, 1 => 1.min(h), _ => h / 2 };
+                    v.push(format!("{amt}{d}"));
+                }
+            }
+            return v.join("+");
+        }
         let mut v = vec![];
         for _ in 0..n {
             let d = if !held.is_empty() && rng.chance(5, 6) { rng.pick(&held).clone() } else { rng.pick(&DENOMS).to_string() };
@@ -805,6 +822,7 @@ impl Scenario for Cw1Scen {
             api.addr_make("proxy")
         );
         self.reset(&header);
+        self.story = (seed ^ trace.wrapping_mul(0x9E37_79B9_7F4A_7C15)).rotate_left(17) % 7;
         header
     }
 
@@ -857,6 +875,29 @@ impl Scenario for Cw1Scen {
         if self.sub && (rng.chance(1, 40) || (self.legacy && rng.chance(1, 6))) {
             self.legacy = false;
             return "migrate".to_string();
+        }
+        // story 0: an admin grants one subkey three denominations, then that subkey spends — in ONE bank send — exactly
+        // the whole of one denomination and part of the ones stored after it (twice, so that the books after the first
+        // send are used again)
+        if self.sub && !self.wide && self.story == 0 && (1..=6).contains(&_step) {
+            let admins = self.admins_now();
+            let subkey = self.pool.iter().find(|a| !admins.contains(&a.to_string())).cloned();
+            if let (Some(adm), Some(sk)) = (admins.first(), subkey) {
+                if _step <= 3 {
+                    let d = ["ub", "uc", "ua"][_step - 1];
+                    return format!("exec {adm} increase_allowance spender=+{sk} amt={} denom={d} expires=-", 3 + rng.below(6));
+                }
+                let held: Vec<(String, u128)> =
+                    self.raw_allowance(&sk).map(|a| a.balance.0.iter().map(|c| (c.denom.clone(), c.amount.u128())).collect()).unwrap_or_default();
+                if held.len() >= 2 {
+                    let i = rng.below(held.len() as u64 - 1) as usize;
+                    let mut v = vec![format!("{}{}", held[i].1, held[i].0)];
+                    let j = i + 1 + rng.below((held.len() - i - 1) as u64) as usize;
+                    v.push(format!("{}{}", 1.min(held[j].1).max(held[j].1 / 3), held[j].0));
+                    let to = rng.pick(&self.pool).clone();
+                    return format!("exec {sk} execute msgs=bank/{to}/{}", v.join("+"));
+                }
+            }
         }
         let r = rng.below(100);
         if r < 8 {
